@@ -94,6 +94,20 @@ func c19Round(c *run.C) {
 	}
 	c.Begin(map[string]interface{}{"goroutines": G, "gomaxprocs": procs, "types": desc})
 
+	// One more shared value whose struct type is new in this round and holds
+	// regA fields: even goroutines fold it with a folder registered for regA
+	// (gotype.Folders), odd ones without.  Whatever one iterator compiles for
+	// the type must not show through in an iterator configured differently.
+	regT := reflect.StructOf([]reflect.StructField{
+		{Name: "A", Type: reflect.TypeOf(regA{})},
+		{Name: "P", Type: reflect.TypeOf(&regA{})},
+		{Name: "L", Type: reflect.TypeOf([]regA{})},
+		{Name: fmt.Sprintf("U%d", r.Intn(1<<30)), Type: reflect.TypeOf(0)},
+	})
+	regV := (&gen.ValueGen{R: r, O: gen.GoValueOpts{MaxLen: 3}}).Value(regT, 0)
+	regOut := make([][]byte, G)
+	regErr := make([]string, G)
+
 	// per-goroutine seeds drawn up front: the generator itself is not shared
 	seeds := make([]uint64, G)
 	for i := range seeds {
@@ -173,6 +187,35 @@ func c19Round(c *run.C) {
 				}
 			}
 			start.Wait()
+			func() {
+				defer func() {
+					if rec := recover(); rec != nil {
+						regErr[g] = fmt.Sprintf("panic: %v", rec)
+					}
+				}()
+				var rw mon.CountingWriter
+				var opts []gotype.FoldOption
+				if g%2 == 0 {
+					opts = append(opts, gotype.Folders(foldRegA))
+				}
+				rit, err := gotype.NewIterator(codec.JSON.NewVisitor(&rw, codec.JSONOpts{}), opts...)
+				if err != nil {
+					regErr[g] = err.Error()
+					return
+				}
+				for k := 0; k < 2; k++ { // first use, cached use
+					rw.Buf = rw.Buf[:0]
+					if err := rit.Fold(regV.Interface()); err != nil {
+						regErr[g] = err.Error()
+						return
+					}
+					if k == 0 {
+						regOut[g] = append([]byte{}, rw.Buf...)
+					} else if string(regOut[g]) != string(rw.Buf) {
+						regErr[g] = fmt.Sprintf("first use wrote %s, cached use %s", regOut[g], rw.Buf)
+					}
+				}
+			}()
 			for round := 0; round < 2; round++ {
 				perm := make([]int, len(pairs))
 				for i := range perm {
@@ -261,6 +304,32 @@ func c19Round(c *run.C) {
 			p.bytes[ci] = w.Buf
 		}
 	}
+	// the differently configured iterators: each must have written what a
+	// lone iterator of its own configuration writes
+	var regRef [2][]byte
+	for cfg := 0; cfg < 2; cfg++ {
+		var rw mon.CountingWriter
+		var opts []gotype.FoldOption
+		if cfg == 0 {
+			opts = append(opts, gotype.Folders(foldRegA))
+		}
+		if err := gotype.Fold(regV.Interface(), codec.JSON.NewVisitor(&rw, codec.JSONOpts{}), opts...); err != nil {
+			c.Violationf("concurrent-error", "sequential:fold-registered", "sequential fold failed: %v", err)
+			return
+		}
+		regRef[cfg] = rw.Buf
+	}
+	for g := 0; g < G; g++ {
+		if regErr[g] != "" {
+			c.Violationf("concurrent-error", "concurrent:registered:"+errClass(fmt.Errorf("%s", regErr[g])), "goroutine %d of %d (folder registered: %v): %s", g, G, g%2 == 0, regErr[g])
+			return
+		}
+		if string(regOut[g]) != string(regRef[g%2]) {
+			c.Violationf("concurrent-mismatch", "concurrent:registered-folder-leak", "goroutine %d of %d (folder for regA registered: %v) wrote %s, an iterator of the same configuration running alone writes %s", g, G, g%2 == 0, regOut[g], regRef[g%2])
+			return
+		}
+	}
+	c.Observe("differently_configured_iterator_folds", 2*G)
 	// verdicts (main goroutine only)
 	for g := 0; g < G; g++ {
 		for i, res := range results[g] {
